@@ -844,3 +844,41 @@ def wrapper_tables(ctx):
           malformed_payloads_outside_the_guard=unguarded,
           clauses=["RaisesOnlyRetryWorthy", "WellFormedReturn", "UserErrorsFail", "NonRetriableFails", "RetriableRaises",
                    "SuspendIsPending", "FaultNeverSucceeds", "FaultInert"], wall_s=round(time.time() - t1, 2))
+
+
+# ---- replay of a recorded policy violation (replay dict kind == "policy") -----------------------------------------------
+
+def replay(d) -> int:
+    """Re-run the real function on the recorded row: `python -c "import json,sys; from checks import policy_tables as p;
+    p.replay(json.load(open(sys.argv[1])))" <replay.json>` from /verif."""
+    sc = d.get("replay", d)
+    table, row = sc.get("table"), sc.get("row")
+    print(json.dumps(sc, indent=1, default=str)[:3000])
+    with _real_sdk():
+        if table == "completion":
+            print("real (should_complete, is_complete, should_continue, reason, replayed reason):", _completion_real(row))
+        elif table in ("retry-large-attempt", "wait-large-attempt"):
+            from aws_durable_execution_sdk_python.config import Duration, JitterStrategy
+            from aws_durable_execution_sdk_python.retries import RetryStrategyConfig, create_retry_strategy
+            from aws_durable_execution_sdk_python.waits import WaitStrategyConfig, create_wait_strategy
+            conf = dict(sc["config"])
+            for k in ("initial_delay", "max_delay"):
+                if k in conf:
+                    conf[k] = Duration.from_seconds(conf[k])
+            if "jitter_strategy" in conf:
+                conf["jitter_strategy"] = JitterStrategy[conf["jitter_strategy"]]
+            try:
+                if table.startswith("retry"):
+                    print("real:", create_retry_strategy(RetryStrategyConfig(**conf))(RuntimeError("x"), sc["attempts_made"]))
+                else:
+                    conf["should_continue_polling"] = lambda st: True
+                    print("real:", create_wait_strategy(WaitStrategyConfig(**conf))({"st": 1}, sc["attempts_made"]))
+            except Exception as e:  # noqa: BLE001
+                print("real: raised", type(e).__name__, e)
+        elif table == "wrapper" and row:
+            from aws_durable_execution_sdk_python.execution import LAMBDA_RESPONSE_SIZE_LIMIT
+            results, client, value = _wrapper_cell(row["cause"], row["fault"], "a" * (LAMBDA_RESPONSE_SIZE_LIMIT + 10))
+            for box in results:
+                print("real:", {k: (str(v)[:200]) for k, v in box.items()},
+                      "->", _wrapper_compare(row, box, client, value, LAMBDA_RESPONSE_SIZE_LIMIT))
+    return 0
